@@ -6,6 +6,7 @@ CONSTANTS
   MaxSteps = 12
   Variant = "ok"
   WithSv = TRUE
+  Stamps = "now"
   SvMode = "asWritten"
 INVARIANT Emit
 CHECK_DEADLOCK FALSE
